@@ -287,6 +287,9 @@ unsigned long SSA::locateP(uchar *pattern, uint m, size_t *left, size_t *right,
                            size_t) { // elements
   ulong i = m - 1;
   uint c = pattern[i];
+  // (occ[] only covers the symbols of the text)
+  if (!alphabet[c])
+    return 0;
   unsigned long sp = occ[c];
   unsigned long ep = occ[c + 1] - 1;
   while (sp <= ep && i >= 1) {
@@ -314,6 +317,9 @@ unsigned long SSA::locate(uchar *pattern, uint m, size_t **occs) {
   }
   ulong i = m - 1;
   uint c = pattern[i];
+  // (occ[] only covers the symbols of the text)
+  if (!alphabet[c])
+    return 0;
   unsigned long sp = occ[c];
   unsigned long ep = occ[c + 1] - 1;
   while (sp <= ep && i >= 1) {
@@ -335,6 +341,7 @@ unsigned long SSA::locate(uchar *pattern, uint m, size_t **occs) {
     while (i <= ep) {
       j = i;
       dist = 0;
+      c = 0; // (a separator met by the previous occurrence must not leak)
 
       while (!sampled->access(j)) {
         c = bwt->access(j, rank_tmp);
